@@ -858,8 +858,9 @@ func (e *SpecEnv) call(x *SExpr) *Val {
 				}
 				snap, ok := e.fr.snaps[args[0].Name]
 				if !ok {
-					// label not reached on this path: value irrelevant (guard with reached(L))
-					snap = e.fr.entry
+					// label not reached on this path: value irrelevant (guard with reached(L)); the current state has
+					// every local variable the expression may mention
+					snap = e.st
 				}
 				n := *e
 				n.st = snap
